@@ -141,6 +141,8 @@ def simplify_func(f):
     f = re.sub(r"\{lambda.*$", "lambda", f)
     f = re.sub(r"\[clone.*$", "", f)
     f = f.replace("(anonymous namespace)::", "")
+    # gcc and clang differ in whether they print the enclosing namespaces of file-static functions
+    f = re.sub(r"\brkcommon::(?:(?:xml|utility|tasking|math|containers|memory|networking|tracing|detail)::)*", "", f)
     toks = f.strip().split()
     return toks[-1] if toks else f.strip()
 
@@ -270,7 +272,8 @@ def compile_jobs(pid, chk, v):
         o = os.path.join(d, "obj", s.replace("/", "_") + ".o")
         jobs.append(base + v.get("lib_flags", []) + ["-c", os.path.join(REPO, s), "-o", o])
         objs.append(o)
-    for h in ([chk["harness"]] if isinstance(chk["harness"], str) else chk["harness"]) + v.get("harness_extra", []):
+    hlist = v.get("harness_override") or chk["harness"]
+    for h in ([hlist] if isinstance(hlist, str) else hlist) + v.get("harness_extra", []):
         o = os.path.join(d, "obj", "h_" + os.path.basename(h) + ".o")
         jobs.append(base + v.get("harness_flags", []) + chk.get("harness_flags", []) +
                     ["-c", os.path.join(HERE, "harness", h), "-o", o])
@@ -327,6 +330,9 @@ def run_variant(pid, chk, v, tier, seed, case=None):
         out = os.path.join(d, "run%d" % ri)
         shutil.rmtree(out, ignore_errors=True)
         os.makedirs(out)
+        if inv.get("fuzz"):
+            os.makedirs(os.path.join(out, "corpus"))
+            os.makedirs(os.path.join(out, "artifacts"))
         env = dict(os.environ)
         env["VH_OUT"] = out
         env["VH_VARIANT"] = v["name"]
@@ -373,6 +379,9 @@ def run_variant(pid, chk, v, tier, seed, case=None):
                             shutil.rmtree(f, ignore_errors=True)
                         else:
                             os.remove(f)
+                if inv.get("fuzz"):
+                    os.makedirs(os.path.join(out, "corpus"), exist_ok=True)
+                    os.makedirs(os.path.join(out, "artifacts"), exist_ok=True)
                 continue
             break
         res["runs"].append(dict(index=ri, out=out, rc=rc, timed_out=timed_out, wall_s=time.time() - t0,
@@ -438,6 +447,18 @@ def collect(pid, chk, v, vres, agg):
             elif t == "crash":
                 p = r.get("pid")
                 txt = sanlogs.get(p)
+                inp = os.path.join(out, "input.%s.bin" % p)
+                if os.path.exists(inp):
+                    # the harness left the input that killed it
+                    keep = os.path.join(HERE, "replay", pid)
+                    os.makedirs(keep, exist_ok=True)
+                    dst = os.path.join(keep, "crash-input-%s-%s.bin" % (v["name"], p))
+                    raw = open(inp, "rb").read()
+                    if len(raw) >= 8:  # 8-byte length + bytes (shared mapping written by the harness)
+                        n = int.from_bytes(raw[:8], "little")
+                        raw = raw[8:8 + n] if n <= len(raw) - 8 else raw[8:]
+                    open(dst, "wb").write(raw)
+                    r["case"] = (r.get("case", "") + " [input that killed the case: %s = %r]" % (dst, raw[:300]))
                 if txt:
                     used_logs.add(p)
                     reps = parse_san_log(txt)
@@ -528,7 +549,8 @@ def collect_fuzz(pid, chk, v, run, agg):
     """libFuzzer invocation: artifacts are violations; stats parsed from the log"""
     out = run["out"]
     txt = ""
-    for f in [os.path.join(out, "stdout.txt")] + glob.glob(os.path.join(out, "fuzz-*.log")):
+    joblogs = glob.glob(os.path.join(out, "fuzz-*.log"))
+    for f in (joblogs or [os.path.join(out, "stdout.txt")]):
         try:
             txt += open(f, errors="replace").read() + "\n"
         except Exception:
